@@ -1,6 +1,6 @@
 (* Extraction of every executable Model and Spec entry point.  ExtrOcamlBasic only. *)
 From Coq Require Import Extraction ExtrOcamlBasic.
-From SA Require Import Base.Prelude Solr.MM Solr.MM_Spec Kernels.Intersect Kernels.Linear Kernels.Spec Codec.Codec Codec.Codec_Spec Index.Index Index.Fast Index.Truncate Index.Index_Spec Query.Phrase Query.Phrase_Spec Score.BM25 Score.Score Query.Range Query.Range_Spec View.View View.View_Spec View.Purity Solr.Edismax Solr.Edismax_Spec Store.Store Conc.Conc Rebuild.Rebuild Span.Span Span.Span_Spec Span.Span_Variant.
+From SA Require Import Base.Prelude Solr.MM Solr.MM_Spec Kernels.Intersect Kernels.Linear Kernels.Spec Codec.Codec Codec.Codec_Spec Index.Index Index.Fast Index.Truncate Index.Index_Spec Query.Phrase Query.Phrase_Spec Score.BM25 Score.Score Query.Range Query.Range_Spec View.View View.View_Spec View.Purity Solr.Edismax Solr.Edismax_Spec Solr.Edismax_AnySim Store.Store Conc.Conc Rebuild.Rebuild Span.Span Span.Span_Spec Span.Span_Variant.
 (* The ONLY extraction directive beyond ExtrOcamlBasic: Coq's List.rev is quadratic (rev l ++ [x]); it is
    realised by OCaml's linear List.rev (same function: List.rev_alt : rev l = rev_append l []). *)
 Extract Inlined Constant rev => "List.rev".
@@ -22,6 +22,7 @@ Extraction "samodel.ml"
   view_docs compose_rows rows0
   run init_pool
   edismax edismax_spec
+  edismax_anysim anysim_spec
   mm_create mm_load dir_count
   prog_tf prog_phrase prog_df prog_score prog_select spawn run_sched serial_schedule results
   element_of fill_element rebuild
